@@ -141,6 +141,38 @@ theorem aget_foldAttrs_of_not_mem (a0 : Attrs) (l : List (String × Val)) (k : S
     rw [this, ih _ (fun x hx => h x (List.mem_cons_of_mem _ hx)),
       aget_aset_ne a0 kv.2 (fun hh => h kv List.mem_cons_self hh.symm)]
 
+/-- the value bound last to a name in an attribute list -/
+def lastVal (l : List (String × Val)) (k : String) : Option Val :=
+  (l.reverse.find? (fun e => e.1 == k)).map (·.2)
+
+theorem aget_foldAttrs (a0 : Attrs) (l : List (String × Val)) (k : String) :
+    aget (foldAttrs a0 l) k = (lastVal l k).or (aget a0 k) := by
+  induction l generalizing a0 with
+  | nil => simp [foldAttrs, lastVal]
+  | cons kv rest ih =>
+    have : foldAttrs a0 (kv :: rest) = foldAttrs (aset a0 kv.1 kv.2) rest := rfl
+    rw [this, ih]
+    simp only [lastVal, List.reverse_cons, List.find?_append, Option.map_or]
+    by_cases hk : kv.1 = k
+    · subst hk
+      simp [aget_aset_self]
+    · have hne : (kv.1 == k) = false := by simpa using hk
+      rw [aget_aset_ne a0 kv.2 (fun hh => hk hh.symm)]
+      simp [List.find?, hne]
+
+theorem lastVal_append (l1 l2 : List (String × Val)) (k : String) :
+    lastVal (l1 ++ l2) k = (lastVal l2 k).or (lastVal l1 k) := by
+  simp [lastVal, List.reverse_append, List.find?_append, Option.map_or]
+
+theorem lastVal_ite_ne (c : Bool) (name k : String) (v : Val) (h : name ≠ k) :
+    lastVal (if c = true then [(name, v)] else []) k = none := by
+  have hne : (name == k) = false := by simpa using h
+  cases c <;> simp [lastVal, List.find?, hne]
+
+theorem lastVal_ite_self (c : Bool) (k : String) (v : Val) :
+    lastVal (if c = true then [(k, v)] else []) k = if c then some v else none := by
+  cases c <;> simp [lastVal]
+
 /-- the last binding of a name wins -/
 theorem aget_foldAttrs_last (a0 : Attrs) (l1 l2 : List (String × Val)) (k : String) (v : Val) (h : ∀ kv ∈ l2, kv.1 ≠ k) :
     aget (foldAttrs a0 (l1 ++ (k, v) :: l2)) k = some v := by
@@ -522,6 +554,132 @@ theorem rget_prePut (cfg : Cfg) (hs : cfg.sidecar = false) (rq : Req) (key : Pat
     · intro s hs'; cases hs'
   exact rget_storeAttrs_xattr cfg hs _ _ _ _ _ _ (h4 _ (h3 _ (h2 _ h1 _)) _)
 
+/-! ### publication with the replace-by-rename routine -/
+
+theorem get_run_publishR (fs : FS) (r : Ref) (obj tdir : Path) (name : String) (n : Node) (hr : fs.rget r = some n)
+    (hobj : obj ≠ []) (hnd : fs.isDir obj = false) (hrp : ∀ p ∈ r.paths, ¬ p <+: obj)
+    (htn : ¬ (tdir ++ [name]) <+: obj) (hfresh : ∀ id, r = .anon id → fs.get (tdir ++ [name]) = none) :
+    (run (publishR fs r obj tdir name) fs).get obj = some n := by
+  unfold publishR
+  dsimp only
+  have hrm : rmDirAt fs obj = [] := by
+    unfold rmDirAt
+    unfold FS.isDir at hnd
+    split <;> simp_all
+  rw [hrm, List.append_nil, run_append]
+  have hmkT : ∀ s ∈ mkdirAll fs obj.dropLast, s.touches r = false :=
+    touches_mkdirAll_false _ _ r (fun p hp h => hrp p hp (h.trans (List.dropLast_prefix obj)))
+  have hmkP : ∀ q : Path, ¬ q <+: obj.dropLast → ∀ s ∈ mkdirAll fs obj.dropLast, s.touches (.path q) = false :=
+    fun q hq => touches_mkdirAll_false _ _ (.path q) (by
+      intro p hp h
+      simp only [Ref.paths, List.mem_singleton] at hp; subst hp; exact hq h)
+  have hobjNP : ¬ obj <+: obj.dropLast := by
+    intro h
+    have := h.length_le
+    rw [List.length_dropLast] at this
+    have := List.length_pos_iff.mpr hobj
+    omega
+  have h3 : (run (mkdirAll fs obj.dropLast) fs).get obj = fs.get obj := by
+    have := rget_run_of_not_touches (.path obj) _ fs (hmkP obj hobjNP)
+    simpa [FS.rget] using this
+  have h4 : (run (mkdirAll fs obj.dropLast) fs).rget r = some n := by
+    rw [rget_run_of_not_touches r _ fs hmkT, hr]
+  have h5 : (run (mkdirAll fs obj.dropLast) fs).get (tdir ++ [name]) = fs.get (tdir ++ [name]) := by
+    have := rget_run_of_not_touches (.path (tdir ++ [name])) _ fs
+      (hmkP _ (fun h => htn (h.trans (List.dropLast_prefix obj))))
+    simpa [FS.rget] using this
+  generalize run (mkdirAll fs obj.dropLast) fs = fsm at h3 h4 h5
+  cases r with
+  | anon id =>
+    simp only [FS.rget] at h4
+    dsimp only
+    split
+    · -- an object is there: link next to the temp files, rename over it
+      have h6 : fsm.get (tdir ++ [name]) = none := by rw [h5]; exact hfresh id rfl
+      show (apply (.rename (tdir ++ [name]) obj) (apply (.link id (tdir ++ [name])) fsm)).get obj = some n
+      rw [apply_link_put fsm id _ n h4 h6,
+        apply_rename_some _ _ obj n (FS.get_put_self fsm _ n)]
+      exact FS.get_put_self _ _ _
+    · rename_i hnf
+      have hnone : fsm.get obj = none := by
+        rw [h3]
+        unfold FS.isFile at hnf
+        unfold FS.isDir at hnd
+        cases hg : fs.get obj with
+        | none => rfl
+        | some nd => cases nd <;> simp_all
+      show (apply (.link id obj) fsm).get obj = some n
+      rw [apply_link_put fsm id obj n h4 hnone]; exact FS.get_put_self _ _ _
+  | path t =>
+    simp only [FS.rget] at h4
+    show (apply (.rename t obj) (apply (.chmod (.path t)) fsm)).get obj = some n
+    have : apply (.chmod (.path t)) fsm = fsm := rfl
+    rw [this, apply_rename_some fsm t obj n h4]; exact FS.get_put_self _ _ _
+
+/-! ### where the preparation of a PutObject writes, finely -/
+
+theorem writes_openTmp_fine (cfg : Cfg) (fs : FS) (id : Nat) (dir : Path) (fa : Bool) (name : String) :
+    WritesIn (fun q => (q <+: dir ∧ 2 ≤ q.length) ∨ q ∈ (openTmp cfg fs id dir fa name).1.paths)
+      (openTmp cfg fs id dir fa name).2 := by
+  unfold openTmp
+  split
+  · intro s hs q hq
+    simp only [List.mem_append, List.mem_singleton] at hs
+    rcases hs with rfl | hs
+    · simp [Step.writes] at hq
+    · split at hs
+      · simp only [List.mem_singleton] at hs; subst hs; simp [Step.writes] at hq
+      · cases hs
+  · apply WritesIn.append
+    · apply WritesIn.append
+      · exact (writes_mkdirAll fs dir).mono (fun q h => Or.inl h)
+      · intro s hs q hq
+        simp only [List.mem_singleton] at hs; subst hs
+        simp only [Step.writes, List.mem_singleton] at hq; subst hq
+        exact Or.inr (by simp [Ref.paths])
+    · intro s hs q hq
+      split at hs
+      · simp only [List.mem_singleton] at hs; subst hs; simp [Step.writes] at hq
+      · cases hs
+
+theorem writes_prePut_fine (cfg : Cfg) (hs : cfg.sidecar = false) (rq : Req) (key : Path) (fs : FS) (sp : PutSpec) :
+    WritesIn (fun q => (q <+: tmpDir cfg ∧ 2 ≤ q.length) ∨ q ∈ (openTmp cfg fs 0 (tmpDir cfg) sp.falloc rq.tmp).1.paths ∨
+        ["V"] <+: q ∨ q <+: (objPath cfg key).dropLast) (prePut cfg rq fs key sp) := by
+  unfold prePut
+  dsimp only
+  rw [deleteAttrs_xattr cfg hs]
+  repeat' apply WritesIn.append
+  · exact (writes_openTmp_fine cfg fs 0 _ _ _).mono (fun q h => by
+      rcases h with h | h
+      · exact Or.inl h
+      · exact Or.inr (Or.inl h))
+  · intro s hs' q hq
+    simp only [List.mem_singleton] at hs'; subst hs'
+    exact Or.inr (Or.inl (by simpa [Step.writes] using hq))
+  · exact WritesIn.ite ((writes_archive_xattr cfg hs rq key _).mono (fun q h => Or.inr (Or.inr (Or.inl h)))) (WritesIn.nil _)
+  · exact (writes_mkdirAll _ _).mono (fun q h => Or.inr (Or.inr (Or.inr h.1)))
+  · exact WritesIn.ite ((writes_deleteNullVersion cfg key _).mono (fun q h => Or.inr (Or.inr (Or.inl h)))) (WritesIn.nil _)
+  · exact WritesIn.nil _
+  · exact (writes_storeAttrs_xattr cfg hs _ _ _ _).mono (fun q h => Or.inr (Or.inl h))
+
+/-- with O_TMPFILE the preparation leaves the name of the replace link alone -/
+theorem get_tmpname_prePut (cfg : Cfg) (hs : cfg.sidecar = false) (rq : Req) (key : Path) (hk : KeyOK key) (fs : FS) (sp : PutSpec)
+    (id : Nat) (hanon : (openTmp cfg fs 0 (tmpDir cfg) sp.falloc rq.tmp).1 = .anon id) :
+    (run (prePut cfg rq fs key sp) fs).get (tmpDir cfg ++ [rq.tmp]) = fs.get (tmpDir cfg ++ [rq.tmp]) := by
+  have := rget_run_of_not_touches (.path (tmpDir cfg ++ [rq.tmp])) (prePut cfg rq fs key sp) fs (by
+    apply not_touches_of
+    · intro id' h; cases h
+    · intro p hp s hs' q hq hqp
+      cases hp
+      subst hqp
+      rcases writes_prePut_fine cfg hs rq key fs sp s hs' _ hq with h | h | h | h
+      · exact not_prefix_snoc _ _ h.1
+      · rw [hanon] at h; simp [Ref.paths] at h
+      · rw [tmpDir_eq] at h
+        exact absurd (List.cons_prefix_cons.mp h).1 (by decide)
+      · exact tmp_not_prefix_obj cfg key hk rq.tmp (h.trans (List.dropLast_prefix _)))
+  simpa [FS.rget] using this
+
 /-- The attributes a PutObject writes, in order: onto the temp file, then by name. -/
 def putAttrs (cfg : Cfg) (rq : Req) : List (String × Val) :=
   (putSpecOf cfg rq).attrs ++ (if cfg.verDir && cfg.vstatus == .enabled then [("version-id", rq.newVid)] else []) ++
@@ -529,7 +687,7 @@ def putAttrs (cfg : Cfg) (rq : Req) : List (String × Val) :=
 
 /-- After the completed PutObject the name holds the request's body with exactly the request's attributes —
     from ANY state in which the bucket exists, the name is not a directory and the temp name is fresh. -/
-theorem get_planPut (cfg : Cfg) (hs : cfg.sidecar = false) (har : cfg.atomicReplace = false) (rq : Req) (hk : KeyOK rq.key)
+theorem get_planPut (cfg : Cfg) (hs : cfg.sidecar = false) (rq : Req) (hk : KeyOK rq.key)
     (fs : FS) (hb : fs.isDir (bucketPath cfg) = true) (hnd : fs.isDir (objPath cfg rq.key) = false)
     (hfresh : fs.get (tmpDir cfg ++ [rq.tmp]) = none) :
     (run (planPut cfg rq fs) fs).get (objPath cfg rq.key) = some (.file rq.data (foldAttrs [] (putAttrs cfg rq))) := by
@@ -549,13 +707,15 @@ theorem get_planPut (cfg : Cfg) (hs : cfg.sidecar = false) (har : cfg.atomicRepl
     · rw [h] at hp
       simp only [Ref.paths, List.mem_singleton] at hp
       subst hp; exact tmp_not_prefix_obj cfg rq.key hk rq.tmp
-  have hpub : publishC cfg (run (prePut cfg rq fs rq.key (putSpecOf cfg rq)) fs)
-      (openTmp cfg fs 0 (tmpDir cfg) (putSpecOf cfg rq).falloc rq.tmp).1 (objPath cfg rq.key) (tmpDir cfg) rq.tmp
-      = publish (run (prePut cfg rq fs rq.key (putSpecOf cfg rq)) fs)
-          (openTmp cfg fs 0 (tmpDir cfg) (putSpecOf cfg rq).falloc rq.tmp).1 (objPath cfg rq.key) := by
-    unfold publishC; simp [har]
-  rw [hpub]
-  have h7 := get_run_publish _ _ _ _ hpre hobj hnd' hrp
+  have h7 : (run (publishC cfg (run (prePut cfg rq fs rq.key (putSpecOf cfg rq)) fs)
+      (openTmp cfg fs 0 (tmpDir cfg) (putSpecOf cfg rq).falloc rq.tmp).1 (objPath cfg rq.key) (tmpDir cfg) rq.tmp)
+      (run (prePut cfg rq fs rq.key (putSpecOf cfg rq)) fs)).get (objPath cfg rq.key) = some (.file (putSpecOf cfg rq).data (foldAttrs [] kvs)) := by
+    unfold publishC
+    split
+    · refine get_run_publishR _ _ _ _ _ _ hpre hobj hnd' hrp (tmp_not_prefix_obj cfg rq.key hk rq.tmp) ?_
+      intro id hid
+      rw [get_tmpname_prePut cfg hs rq rq.key hk fs (putSpecOf cfg rq) id hid]; exact hfresh
+    · exact get_run_publish _ _ _ _ hpre hobj hnd' hrp
   have h8 := rget_storeAttrs_xattr cfg hs (.path (objPath cfg rq.key)) (objPath cfg rq.key) (putSpecOf cfg rq).postAttrs _ _ _ h7
   simp only [FS.rget] at h8
   rw [h8, hkvs]
